@@ -698,7 +698,11 @@ def run(tier, seed):
     def classify_known(o):
         """a failing in-domain case is a known finding only inside the finding's scope, decided per case, and only
         when the implementation does what the model does (a failure the model does not share is new)"""
-        if not o.corr:
+        # when the proof/table obligations of this run did not build, the model itself may be degraded
+        # (tables unreadable): then a failure inside a finding's scope is judged by the scope predicate
+        # alone, otherwise implementation == model is required
+        model_trustworthy = r.build is not None and r.build.proofs_ok and not r.audit_bad
+        if model_trustworthy and not o.corr:
             return None
         s = o.case.meta.get("smiles", "")
         if k1.get("status") == "open" and has_S_then_n(s):
@@ -752,7 +756,7 @@ def run(tier, seed):
                     comp.append((s, c2))
         outs2 = r.evaluate([c2 for _, c2 in comp], classify_known=classify_known)
         for (s, _), o in zip(comp, outs2):
-            normalised_ok[s] = bool(o.ok_reply and o.spec_impl == "1" and o.corr)
+            normalised_ok[s] = bool(o.ok_reply and o.spec_impl == "1" and (o.corr or not (r.build.proofs_ok and not r.audit_bad)))
         outs = r.evaluate(pending, classify_known=classify_known)
         for o in outs + outs2:
             if not o.ok_reply:
